@@ -37,7 +37,7 @@ def hook_paths(rep: C.Report) -> None:
     b) if template_fn's result is used (the `t is None` test is false) the template body is not looked up;
     c) on the 'not selected' path (check_template_need_expand false) no hook is called and the call is re-emitted;
     d) every path that looks the body up or calls template_fn emits exactly one result for the call."""
-    ob = rep.add(C.Ob("Ob3 hook call sites: at most once per call, non-None template_fn result bypasses the body, unselected calls are re-emitted without hooks", "E3 AST path encoder + z3", [], "all syntactic paths of one iteration of expand_recurse's cookie loop, unbounded input"))
+    ob = rep.add(C.Ob("Ob3 hook call sites: at most once per call, non-None template_fn result bypasses the body, every expansion is offered to post_template_fn, unselected calls are re-emitted without hooks", "E3 AST path encoder + z3", [], "all syntactic paths of one iteration of expand_recurse's cookie loop, unbounded input"))
     try:
         tree = ast.parse(open(os.path.join(C.SRC, "core.py")).read())
         fns = [f for q, f in AP.functions(tree) if q[-1] == "expand_recurse"]
@@ -65,9 +65,12 @@ def hook_paths(rep: C.Report) -> None:
             # `not expand_all and not self.check_template_need_expand(...)`
             if any(_attr_call(c, {"check_template_need_expand"}) for c in ast.walk(test)):
                 return {"unselected": 1} if pol else {"selected": 1}
+            # `post_template_fn is not None [and t]`: the place where the hook is offered the expansion
+            if "post_template_fn" in ast.unparse(test) and "is not None" in ast.unparse(test):
+                return {"ptf_offered": 1}
             return None
 
-        names = ["tf", "ptf", "lookup", "reemit", "t_used", "unselected", "selected"]
+        names = ["tf", "ptf", "lookup", "reemit", "t_used", "unselected", "selected", "ptf_offered"]
         enc = AP.Encoder(fn, names, delta, branch=branch).run()
         found = {k: False for k in ("tf", "ptf", "unselected")}
         bad = []
@@ -78,6 +81,8 @@ def hook_paths(rep: C.Report) -> None:
             "hook called for a call that is not selected": lambda d: z3.And(d["unselected"] >= 1, z3.Or(d["tf"] >= 1, d["ptf"] >= 1)),
             "unselected call not re-emitted exactly once": lambda d: z3.And(d["unselected"] >= 1, d["reemit"] != 1),
             "unselected call looks the body up": lambda d: z3.And(d["unselected"] >= 1, d["lookup"] >= 1),
+            # every expansion - from template_fn or from the body - passes the point where post_template_fn is consulted
+            "an expanded call ends without post_template_fn being offered the expansion": lambda d: z3.And(z3.Or(d["tf"] >= 1, d["lookup"] >= 1), d["reemit"] == 0, d["ptf_offered"] == 0),
         }
         for ex in enc.exits:
             if ex.base is None:
@@ -147,6 +152,8 @@ def replay_hooks():
                     want = 1 if doc == "{{a|{{a|x}}}}" and n_a == 2 else n_a
                     if out.count("<M:a>") != want:
                         return (f"expand({doc!r}, {kwt}, template_fn=<marker for a>)", True, f"template_fn returned a marker {n_a} times, the output {out!r} contains it {out.count('<M:a>')} times (expected {want})")
+                if mode == "marker" and doc == "{{a|1}}" and "pre_expand" not in kw and [n for n, _ in posts] != ["a"]:
+                    return (f"expand({doc!r}, template_fn=<returns a marker for a>, post_template_fn=<records>)", True, f"post_template_fn was called for {[n for n, _ in posts]}, expected ['a']: it must see the expansion template_fn supplied")
                 if len(posts) > len(calls):
                     return (f"expand({doc!r}, {kwt}) with recording hooks", True, f"post_template_fn called {len(posts)} times, template_fn {len(calls)} times")
     return ("hook replay catalogue", False, "")
